@@ -73,6 +73,10 @@ def case(g, tier, ci):
             ops.append({"op": "sq.setOff", "id": "s", "ch": ch, "v": enc(0.25)})
         if not boundary and r.random() < 0.2:
             ops.append({"op": "sq.setDelay", "id": "s", "ch": ch, "v": enc(r.choice([2, 3, 7]) / SR)})
+        elif not boundary and ci % 3 == 0 and ch == chans[0] and SR in (1e9, 2.4e9):
+            # a whole number of samples whose product delay*SR falls just below it in floating point (15 at 1 GSa/s ...):
+            # raw arrays are padded by the rounded number, like blueprints
+            ops.append({"op": "sq.setDelay", "id": "s", "ch": ch, "v": enc(r.choice([15, 30, 60] if SR == 1e9 else [51, 59, 87]) / SR)})
     bounds = {"twait": [-1, 0, 3, 4], "jump_input": [-1, 0, 3, 4], "nrep": [-1, 0, 1, 16383, 16384, 65536],
               "jump_target": [-2, -1, 0, P, P + 1], "goto": [-1, 0, P, P + 1]}
     for p in range(1, P + 1):
@@ -83,6 +87,8 @@ def case(g, tier, ci):
             elif k < 0.5:
                 hi = {"twait": 3, "jump_input": 3, "nrep": 16383, "jump_target": P, "goto": P}[fld]
                 ops.append({"op": "sq.setSeq", "id": "s", "pos": p, "field": fld, "v": r.randint(0, hi)})
+    if ci % 5 == 2:
+        ops.append({"op": "sq.setSeq", "id": "s", "pos": r.randint(1, P), "field": "nrep", "v": 0})      # 0 repetitions = infinite, a legal value
     if not boundary and ci % 4 == 1:
         # a filter compensation, and the sequence's own sample rate (the one the filter runs at) other than its elements'
         for ch in chans:
